@@ -111,7 +111,7 @@ UNIT = dict(
     ],
     postlude=POST,
     proofs=[
-        dict(name='encode', harness='h_encode', properties=['C01'], solvers=['cadical', 'z3'], timeout=dict(quick=600, thorough=1800), floor=3, level='bounded', unwind=6, object_bits=10),
+        dict(name='encode', harness='h_encode', properties=['C01', 'C05'], solvers=['cadical', 'z3'], timeout=dict(quick=600, thorough=1800), floor=3, level='bounded', unwind=6, object_bits=10),
     ],
     trusted_base=['ASSUMED: std::multimap iterates in ascending key order; itoa writes the decimal digits of the tag (K-int); the virtual print() writes the value text and returns its length; '
                   'Presence::find / end, trait bits, std::string size / copy (model bodies in specs/k_menc.py)'],
